@@ -3,6 +3,26 @@ from checks import oracles
 from checks.durable_check import replay_execution, run_durable
 
 
+def payload_sweep(ctx, execs):
+    """every callback program x every 'awkward' success payload (empty, falsy-looking, JSON-looking) x completion before / after
+    the invocation that created the callback suspended"""
+    from checks.durable_common import CURATED, run_campaign
+    progs = [CURATED["s15_cb_uncaught"], CURATED["s04_cb_invoke"],
+             {"nodes": [{"k": "cb", "between": [{"k": "step", "dur": 0.3}]}, {"k": "step"}]}]
+    items = []
+    for p in progs:
+        paths = [str(k) for k, n in enumerate(p["nodes"], 1) if n["k"] == "cb"]
+        for payload in ["", "0", "null", "false", " ", "{}", "[]", "\"\""]:
+            for k in range(1 if ctx.quick else 4):
+                items.append((p, {"seed": 140 + k, "ext": {q: ["SUCCEEDED", payload] for q in paths}, "max_inv": 12,
+                                  "ext_order": "ext_first", "api_latency": [0.0, 0.3][k % 2]}))
+    out = run_campaign(ctx, items)
+    for e in out:
+        oracles.c14(ctx, e)
+        oracles.c02(ctx, e)
+    return out
+
+
 def run(ctx):
     progs = ["s04_cb_invoke", "s05_wfcb_childfail_wfcfail", "s11_invoke_uncaught", "s15_cb_uncaught", "s18_wfcb_retry_submit",
              {"nodes": [{"k": "cb", "between": [{"k": "step"}, {"k": "wait"}], "caught": True}, {"k": "step"}]},
@@ -13,6 +33,7 @@ def run(ctx):
                 gen_kw={"kinds": ["cb", "cb", "invoke", "invoke", "step", "wfcb", "child"]},
                 n_scen=(8, 20),
                 scen_kw={"crash": 0.4, "paging": 0.3, "ext_fail": 0.7},
+                post=payload_sweep,
                 extra_rule="The backend model plays the external party with every terminal status (SUCCEEDED / FAILED / TIMED_OUT / STOPPED / "
                            "CANCELLED for callbacks) in every order relative to invocations. Oracle: callback id equal in every invocation and "
                            "backend-issued, create never raises, result faithful, one START, code between create and result completes.")
